@@ -285,7 +285,10 @@ def gen_history(rng: random.Random, tier: str) -> dict:
         r = rng.random()
         if not slots or r < 0.2:
             if long_paths:
-                cfg = {"name": "long", "grid_n": rng.choice([12, 13]), "n_mazes": rng.randint(1, 4), "maze_ctor": "gen_dfs", "maze_ctor_kwargs": {"do_forks": False}, "endpoint_kwargs": {}, "seed": rng.randrange(1000), "applied_filters": []}
+                # corner-to-corner routes through a 20x20 depth-first maze are usually longer than 127 cells
+                # (the minimal formats store coordinates as int8 and lengths separately)
+                g = rng.choice([18, 20])
+                cfg = {"name": "long", "grid_n": g, "n_mazes": rng.randint(1, 3), "maze_ctor": "gen_dfs", "maze_ctor_kwargs": {}, "endpoint_kwargs": {"allowed_start": [[0, 0]], "allowed_end": [[g - 1, g - 1]]}, "seed": rng.randrange(1000), "applied_filters": []}
             else:
                 cfg = _ds.rand_cfgspec(rng, max_n=6, max_mazes=12, filters=False, rich_endpoints=False)
                 if rng.random() < 0.25:
